@@ -565,7 +565,8 @@ TRANSLATED = {
     "C08": ["tr_termination.py -> Gen/GenTermination.v", "tr_facts.py -> Gen/GenFactsSession.v (load_before_execute, close_in_finally)"],
     "C09": ["tr_facts.py -> Gen/GenFactsPersist.v (persist_locked)"],
     "C10": ["tr_termination.py -> Gen/GenTermination.v"],
-    "C11": ["tr_termination.py -> Gen/GenTermination.v", "tr_facts.py -> Gen/GenFactsPersist.v (persist_locked)"],
+    "C11": ["tr_termination.py -> Gen/GenTermination.v", "tr_facts.py -> Gen/GenFactsPersist.v (persist_locked)",
+            "tr_par.py -> Gen/GenPar.v (num_threads, take_items, acquire_locked, acquire_pops, workers_loop, one_worker_per_thread)"],
     "C12": ["tr_regex.py -> Gen/GenRegex.v"],
     "C13": ["tr_termination.py -> Gen/GenTermination.v", "tr_facts.py -> Gen/GenFactsBuild.v (build_locked)"],
     "C14": ["tr_facts.py -> Gen/GenFactsRewrite.v (replace_atomic)"],
